@@ -1,26 +1,46 @@
 /-
 C11 — year inference for timestamps that carry no year.
-Mirror of `SyslogProcessor::process_missing_year` (src/readers/syslogprocessor.rs):
+Mirror of `SyslogProcessor::process_missing_year` (src/readers/syslogprocessor.rs). The control
+skeleton of the loop is NOT written here: it is read from `S4V.Gen.Year` (regenerated from the
+source by gen/gen_year.py) — the order of the jump test and of the exits (`DECISIONS`), the two
+comparison operators of the jump test, the year step, and the `Result_Filter_DateTime1` variants
+on which the `--dt-after` match breaks; `dt_after_or_before` itself is `S4V.Gen.Filter.dtAfterOrBefore`.
 
-  year := year of mtime (in the `--tz-offset` zone)
+  year := year of mtime (in the `--tz-offset` zone)                     [YEAR_FROM_MTIME_IN_TZ]
   walk the messages from the last to the first; each one is (re-)parsed with the
   current fill year (`find_sysline_year(fo, &Some(year))`, i.e. `captures_to_buffer_bytes`
   writes the year's four digits in front of the month and chrono parses the result);
-  if the message so dated is MORE than `BACKWARDS_TIME_JUMP_MEANS_NEW_YEAR` AFTER its
-  successor, `year -= 1`, the stored message is removed and the same file offset is
-  searched again (`continue`); a message before `--dt-after` ends the walk.
+  then the generated decisions run in source order; today:
+    jump         the message so dated is MORE than `BACKWARDS_TIME_JUMP_MEANS_NEW_YEAR` AFTER its
+                 successor: `year -= 1`, the stored message is removed and the same file offset is
+                 searched again (`continue`)
+    startExit    the message begins the file: `break`
+    afterFilter  the message is before `--dt-after`: `break`
 
 What "re-parsed" means for a date that does not exist in the fill year (29 February in a
 common year): chrono rejects the buffer, so the line is *not* a message head for that
 year; `find_sysline_year` keeps walking back and the line becomes a continuation line of
-the message before it (`findParse` below). `datetime_with_year` exists in datetime.rs but
+the message before it (`findParse` below). The same test applies forwards: a sysline found with
+fill year `y` also takes the FOLLOWING lines that do not parse with `y`, even when they had been
+stored as messages of their own with an earlier (leap) fill year (`blank` below; found by the
+in-process correspondence, harness c_year.rs). `datetime_with_year` exists in datetime.rs but
 has no caller.
+
+`lead` = the file has text before its first message (lines without a timestamp): then the first
+message does not begin at offset 0 and the start-of-file exit is not taken for it; the next
+`find_sysline_year` (searching inside the leading text) walks back to offset 0, turns forward and
+returns the first message again (`refind`), and the no-progress guard `fo_prev >= fo_prev_prev`
+ends the walk. The same happens when every remaining line fails to parse with the fill year —
+and if the year was stepped back in between, the message found again is RE-DATED with the lower
+year (found by the in-process correspondence).
 
 Times here are seconds; `dateWith` gives local seconds in the file's zone, instants are
 `local - off`.
 -/
 import S4V.Model.Time
 import S4V.Gen.Consts
+import S4V.Gen.Filter
+import S4V.Gen.Year
 
 namespace S4V.Model.Year
 open S4V.Model.Time
@@ -38,52 +58,167 @@ def dateWith (off y : Int) (m : Msg) : Option Int :=
   if validDate y m.mo m.day then some (daysFromCivil y m.mo m.day * 86400 + m.sod - off) else none
 
 /-- `find_sysline_year(fo, year)` walking backwards over `ms` (last message first): the first
-message whose line parses with fill year `y`; the `k` messages skipped before it do not
-parse and are swallowed as continuation lines. Result: `(k, instant, rest)`. -/
-def findParse (off y : Int) : List Msg → Option (Nat × Int × List Msg)
+message whose line parses with fill year `y`; the messages skipped before it do not parse and are
+swallowed as continuation lines. Result: `(skipped, found, instant, rest)`, `skipped` in the
+order of `ms` (latest first). -/
+def findParse (off y : Int) : List Msg → Option (List Msg × Msg × Int × List Msg)
   | [] => none
   | m :: rest =>
     match dateWith off y m with
-    | some dt => some (0, dt, rest)
-    | none => (findParse off y rest).map fun r => (r.1 + 1, r.2.1, r.2.2)
+    | some dt => some ([], m, dt, rest)
+    | none => (findParse off y rest).map fun r => (m :: r.1, r.2.1, r.2.2.1, r.2.2.2)
 
-/-- the test `dt_cur > dt_prev && dt_cur - dt_prev > BACKWARDS_TIME_JUMP_MEANS_NEW_YEAR` -/
-def jumped (J : Int) (prev : Option Int) (dt : Int) : Bool :=
+/-- what is known about the messages AFTER the current position, in file order (nearest first):
+the message and the instant it is stored with (`none` = no sysline of its own) -/
+abbrev Later := List (Msg × Option Int)
+
+/-- the forward half of `find_sysline_year` (search for "datetime B"): the sysline just found with
+fill year `y` takes every following line that does not parse with `y` — also the lines of
+messages that WERE stored earlier in the walk with another fill year (a 29 February stored with a
+leap year, then reached again with a common year): the new sysline's range replaces theirs in
+`syslines_by_range`, so they no longer have a sysline of their own. It ends at the first line
+that parses with `y`. -/
+def blank (off y : Int) : Later → Later
+  | [] => []
+  | (m, e) :: r => if (dateWith off y m).isSome then (m, e) :: r else (m, none) :: blank off y r
+
+open S4V.Gen.Year (Decision)
+
+/-- the test `dt_cur ⋈ dt_prev && dt_cur - dt_prev ⋈ BACKWARDS_TIME_JUMP_MEANS_NEW_YEAR`; the two
+comparisons are `>` when `laterStrict` / `diffStrict`, else `>=` (generated `JUMP_LATER_STRICT`,
+`JUMP_DIFF_STRICT`); no previous message: no jump (`None => {}`) -/
+def jumpedG (laterStrict diffStrict : Bool) (J : Int) (prev : Option Int) (dt : Int) : Bool :=
   match prev with
-  | some p => decide (dt > p) && decide (dt - p > J)
+  | some p =>
+    (if laterStrict then decide (dt > p) else decide (dt ≥ p)) &&
+      (if diffStrict then decide (dt - p > J) else decide (dt - p ≥ J))
   | none => false
 
-/-- `dt_after_or_before(dt, filter_dt_after) == OccursBefore` -/
-def beforeWindow (after : Option Int) (dt : Int) : Bool :=
-  match after with
-  | some a => decide (dt < a)
-  | none => false
+/-- the jump test of the current source -/
+def jumped (J : Int) (prev : Option Int) (dt : Int) : Bool :=
+  jumpedG S4V.Gen.Year.JUMP_LATER_STRICT S4V.Gen.Year.JUMP_DIFF_STRICT J prev dt
 
-/-- The backward loop. `ms` = messages not yet visited, last first; `y` = `year_opt`;
-`prev` = `syslinep_prev_opt`'s instant. Output: one entry per message of `ms`, in the same
-(reverse) order: `some instant` for a message stored with that date, `none` for a message
-that was not stored (swallowed, or never reached because the walk stopped). -/
-def walk (J off : Int) (after : Option Int) : Nat → List Msg → Int → Option Int → List (Option Int)
-  | 0, ms, _, _ => ms.map fun _ => none
-  | fuel + 1, ms, y, prev =>
+/-- name of the variant `dt_after_or_before(dt, filter_dt_after)` returns (generated function) -/
+def afterVariant (after : Option Int) (dt : Int) : String :=
+  match S4V.Gen.Filter.dtAfterOrBefore dt after with
+  | .Pass => "Pass"
+  | .OccursAtOrAfter => "OccursAtOrAfter"
+  | .OccursBefore => "OccursBefore"
+
+/-- the `match dt_after_or_before(..)` arm taken is a `break` arm -/
+def breaksAfterG (breaksOn : List String) (after : Option Int) (dt : Int) : Bool :=
+  breaksOn.contains (afterVariant after dt)
+
+def breaksAfter (after : Option Int) (dt : Int) : Bool :=
+  breaksAfterG S4V.Gen.Year.AFTER_FILTER_BREAKS_ON after dt
+
+/-- what one pass over the decision steps decides for the message just found -/
+inductive Verdict where
+  /-- fall through to `fo_prev -= charsz_fo; …; syslinep_prev_opt = Some(syslinep)`: go on with the message before -/
+  | next
+  /-- `break`: the message stays stored, nothing before it is visited -/
+  | brk
+  /-- `year_opt += JUMP_YEAR_STEP; remove_sysline; fo_prev = fo_prev_prev; continue` -/
+  | retry
+  deriving DecidableEq, Repr, Inhabited
+
+/-- the facts of the loop body the walk depends on -/
+structure Skel where
+  decisions : List Decision
+  laterStrict : Bool
+  diffStrict : Bool
+  yearStep : Int
+  breaksOn : List String
+deriving Repr
+
+/-- the skeleton regenerated from the current source -/
+def skel : Skel :=
+  { decisions := S4V.Gen.Year.DECISIONS
+    laterStrict := S4V.Gen.Year.JUMP_LATER_STRICT
+    diffStrict := S4V.Gen.Year.JUMP_DIFF_STRICT
+    yearStep := S4V.Gen.Year.JUMP_YEAR_STEP
+    breaksOn := S4V.Gen.Year.AFTER_FILTER_BREAKS_ON }
+
+/-- one decision step. `atStart` = the message found begins at file offset 0 (`fo_prev < charsz_fo`). -/
+def decision (S : Skel) (J : Int) (after prev : Option Int) (dt : Int) (atStart : Bool) : Decision → Verdict
+  | .jump => if jumpedG S.laterStrict S.diffStrict J prev dt then .retry else .next
+  | .startExit => if atStart then .brk else .next
+  | .afterFilter => if breaksAfterG S.breaksOn after dt then .brk else .next
+  | .equalAfter => if after = some dt then .brk else .next
+
+/-- the decision steps in source order: the first that does not fall through decides -/
+def verdictL (S : Skel) (J : Int) (after prev : Option Int) (dt : Int) (atStart : Bool) : List Decision → Verdict
+  | [] => .next
+  | d :: r =>
+    match decision S J after prev dt atStart d with
+    | .next => verdictL S J after prev dt atStart r
+    | v => v
+
+def verdict (S : Skel) (J : Int) (after prev : Option Int) (dt : Int) (atStart : Bool) : Verdict :=
+  verdictL S J after prev dt atStart S.decisions
+
+/-- `find_sysline_year` when NO line at or before the search offset parses with `y` (only text
+without a timestamp and/or 29 February lines lie before it): having tried offset 0 it turns
+forward ("these first few lines … will be ignored") and returns the first LATER line that parses
+with `y`, as a new sysline (inserted over whatever was stored at that offset). Result:
+`(lines passed over, message found, instant with y, what follows it)`. -/
+def refind (off y : Int) : Later → Option (Later × Msg × Int × Later)
+  | [] => none
+  | (m, e) :: r =>
+    match dateWith off y m with
+    | some dt => some ([], m, dt, r)
+    | none => (refind off y r).map fun x => ((m, e) :: x.1, x.2.1, x.2.2.1, x.2.2.2)
+
+/-- The backward loop for a skeleton `S`. `ms` = messages not yet visited, last first; `y` =
+`year_opt`; `prev` = `syslinep_prev_opt`'s instant; `later` = the messages already visited.
+Output: one entry per message in FILE order: `some instant` for a message stored with that date,
+`none` for a message that has no sysline of its own (swallowed, or never reached because the walk
+stopped). -/
+def walkG (S : Skel) (lead : Bool) (J off : Int) (after : Option Int) :
+    Nat → List Msg → Int → Option Int → Later → List (Option Int)
+  | 0, ms, _, _, later => (ms.map fun _ => none) ++ later.map Prod.snd
+  | fuel + 1, ms, y, prev, later =>
     match findParse off y ms with
-    | none => ms.map fun _ => none
-    | some (k, dt, rest) =>
-      if jumped J prev dt then
-        -- year_opt -= 1; remove_sysline; fo_prev = fo_prev_prev; continue
-        walk J off after fuel ms (y - 1) prev
-      else
-        List.replicate k none ++
-          (some dt ::
-            (if beforeWindow after dt then rest.map fun _ => none
-             else walk J off after fuel rest y (some dt)))
+    | none =>
+      match refind off y later with
+      | none => (ms.map fun _ => none) ++ later.map Prod.snd        -- `Done`
+      | some (pre, m, dt, post) =>
+        -- a later message is found AGAIN, now with fill year `y` (usually the one stored last, with the same
+        -- year: nothing changes). It begins after the search offset, so unless the jump test fires the
+        -- no-progress guard `fo_prev >= fo_prev_prev` (or an exit before it) ends the walk.
+        match verdict S J after prev dt false with
+        | .retry => walkG S lead J off after fuel ms (y + S.yearStep) prev (pre ++ (m, none) :: post)
+        | _ => (ms.map fun _ => none) ++ (pre.map Prod.snd ++ (some dt :: (blank off y post).map Prod.snd))
+    | some (skipped, m, dt, rest) =>
+      match verdict S J after prev dt (rest.isEmpty && !lead) with
+      | .retry => walkG S lead J off after fuel ms (y + S.yearStep) prev later
+      | .brk =>
+        (rest.map fun _ => none) ++
+          (some dt :: ((skipped.map fun _ => none) ++ (blank off y later).map Prod.snd))
+      | .next =>
+        walkG S lead J off after fuel rest y (some dt)
+          ((m, some dt) :: ((skipped.reverse.map fun s => (s, none)) ++ blank off y later))
+
+/-- the loop of the current source -/
+def walk (lead : Bool) (J off : Int) (after : Option Int) :
+    Nat → List Msg → Int → Option Int → Later → List (Option Int) :=
+  walkG skel lead J off after
 
 /-- every iteration either stores a message or steps the year back once before storing one -/
 def fuelFor (ms : List Msg) : Nat := 2 * ms.length + 2
 
-/-- `process_missing_year`: instants in FILE order (`none` = not re-dated). -/
+/-- `process_missing_year` for a skeleton `S`: instants in FILE order (`none` = not re-dated). -/
+def processMissingYearG (S : Skel) (lead : Bool) (off mtimeYear : Int) (msgs : List Msg) (after : Option Int) :
+    List (Option Int) :=
+  walkG S lead S4V.Gen.Consts.BACKWARDS_TIME_JUMP_S off after (fuelFor msgs) msgs.reverse mtimeYear none []
+
+/-- `process_missing_year` of the current source; `lead` = text before the first message -/
+def processMissingYearL (lead : Bool) (off mtimeYear : Int) (msgs : List Msg) (after : Option Int) : List (Option Int) :=
+  processMissingYearG skel lead off mtimeYear msgs after
+
+/-- `process_missing_year`: instants in FILE order (`none` = not re-dated); the file begins with its first message. -/
 def processMissingYear (off mtimeYear : Int) (msgs : List Msg) (after : Option Int) : List (Option Int) :=
-  (walk S4V.Gen.Consts.BACKWARDS_TIME_JUMP_S off after (fuelFor msgs) msgs.reverse mtimeYear none).reverse
+  processMissingYearL false off mtimeYear msgs after
 
 /-- year of the instant `t` (seconds) in the zone `off` — `systemtime_to_datetime(tz_offset, mtime).year()` -/
 def yearOfInstant (off t : Int) : Int := (civilFromDays ((t + off) / 86400)).1
